@@ -1,6 +1,9 @@
 (* C04 -- An unchanged task is never re-executed (minimal rebuild).
    Statements only; proofs are `exact <lemma of Proofs/HistoryP.v>` or closed computations.
-   Same model as C03 (Model/Status.v, Model/History.v); [current] = the code in /repo. *)
+   Same model as C03 (Model/Status.v, Model/History.v); [current] = the code in /repo.
+   Writes may carry ANY mtime (WriteAt/TouchAt), older or newer than what is recorded; the hypothesis
+   FS-fresh is [hist_ok]: one file never carries the same mtime with two different contents
+   (forward-clock histories satisfy it: C03_forward_clock_is_fresh). *)
 From DoitV Require Import Base Status History StatusP HistoryP.
 Open Scope Z_scope.
 
@@ -10,7 +13,7 @@ Open Scope Z_scope.
    the same and every file dep exists and is unmodified by the checker's rule (no last success:
    no file_dep), then get_status answers up-to-date: select_task skips the task (absent --always) *)
 Theorem C04_uptodate_complete : forall (md5 : N -> N) (size_of : N -> Z) (ops : list op) (t : name),
-  fs_fresh ops = true ->
+  hist_ok md5 size_of current ops = true ->
   let s := run md5 size_of current ops in
   let df := s_defs s t in
   (forall u, In u (uptodate df) -> eval_utd (s_db s) t u <> Some false) ->
@@ -25,7 +28,7 @@ Theorem C04_uptodate_complete : forall (md5 : N -> N) (size_of : N -> Z) (ops : 
   g_status (check md5 current s t) = UpToDate.
 Proof.
   intros md5 size_of ops t Hf.
-  exact (complete_at md5 current _ t (run_inv md5 size_of current eq_refl eq_refl ops Hf)).
+  exact (complete_at md5 current _ t (run_inv md5 size_of current eq_refl ops Hf)).
 Qed.
 Print Assumptions C04_uptodate_complete.
 
@@ -43,7 +46,7 @@ Print Assumptions C04_uptodate_not_executed.
    statement covers every decision of the second run, including result_dep items that changed
    because another task was re-executed.) *)
 Theorem C04_rerun_idempotent : forall (md5 : N -> N) (size_of : N -> Z) (ops : list op) (ts : list name) (t : name),
-  fs_fresh ops = true ->
+  hist_ok md5 size_of current ops = true ->
   let s0 := run md5 size_of current ops in
   (forall t f, In t ts -> In f (file_dep (s_defs s0 t)) -> exists_ (s_fs s0) f = true) ->
   let s1 := run_all md5 size_of current s0 ts in
@@ -54,30 +57,35 @@ Theorem C04_rerun_idempotent : forall (md5 : N -> N) (size_of : N -> Z) (ops : l
      (file_dep (s_defs s1 t) <> [] \/ exists u b, In u (uptodate (s_defs s1 t)) /\ eval_utd (s_db s1) t u = Some b)).
 Proof.
   intros md5 size_of ops ts t Hf.
-  exact (rerun_at md5 size_of current eq_refl eq_refl _ ts t (run_inv md5 size_of current eq_refl eq_refl ops Hf)).
+  exact (rerun_at md5 size_of current eq_refl eq_refl _ ts t (run_inv md5 size_of current eq_refl ops Hf)).
 Qed.
 Print Assumptions C04_rerun_idempotent.
 
-(* md5 checker: touching a file (fresh mtime, same content) changes no verdict (status, dep_changed
-   and DB effect of get_status are all the same), in any state reached by a history *)
-Theorem C04_touch_md5 : forall (md5 : N -> N) (size_of : N -> Z) (ops : list op) (f : file) (t : name),
-  fs_fresh ops = true ->
+(* md5 checker: giving a file ANOTHER mtime -- newer or older, any value that respects FS-fresh -- while
+   it keeps its content changes no verdict (status, dep_changed and DB effect of get_status are all
+   the same), in any state reached by a history *)
+Theorem C04_touch_md5 : forall (md5 : N -> N) (size_of : N -> Z) (ops : list op) (f : file) (m : Z) (t : name),
+  hist_ok md5 size_of current (ops ++ [TouchAt f m]) = true ->
   s_ck (run md5 size_of current ops) = MD5 ->
-  check md5 current (run md5 size_of current (ops ++ [Touch f])) t = check md5 current (run md5 size_of current ops) t.
-Proof.
-  intros md5 size_of ops f t. exact (touch_md5_run md5 size_of current eq_refl eq_refl ops f t).
-Qed.
+  check md5 current (run md5 size_of current (ops ++ [TouchAt f m])) t = check md5 current (run md5 size_of current ops) t.
+Proof. intros md5 size_of. exact (touch_md5_run md5 size_of current eq_refl). Qed.
 Print Assumptions C04_touch_md5.
 
-(* md5 checker: rewriting a file with the content it has changes no verdict either *)
-Theorem C04_rewrite_same_content_md5 : forall (md5 : N -> N) (size_of : N -> Z) (ops : list op) (f : file) (c : N) (now : meta) (t : name),
-  fs_fresh ops = true ->
+(* ... in particular a touch that takes the mtime from the forward clock *)
+Theorem C04_touch_clock_md5 : forall (md5 : N -> N) (size_of : N -> Z) (ops : list op) (f : file) (t : name),
+  hist_ok md5 size_of current (ops ++ [Touch f]) = true ->
+  s_ck (run md5 size_of current ops) = MD5 ->
+  check md5 current (run md5 size_of current (ops ++ [Touch f])) t = check md5 current (run md5 size_of current ops) t.
+Proof. intros md5 size_of. exact (touch_clock_md5_run md5 size_of current eq_refl). Qed.
+Print Assumptions C04_touch_clock_md5.
+
+(* md5 checker: rewriting a file with the content it has, under any mtime, changes no verdict either *)
+Theorem C04_rewrite_same_content_md5 : forall (md5 : N -> N) (size_of : N -> Z) (ops : list op) (f : file) (c : N) (m : Z) (now : meta) (t : name),
+  hist_ok md5 size_of current (ops ++ [WriteAt f c m]) = true ->
   let s := run md5 size_of current ops in
   s_ck s = MD5 -> s_fs s f = Some now -> content now = c -> size now = size_of c ->
-  check md5 current (run md5 size_of current (ops ++ [Write f c])) t = check md5 current s t.
-Proof.
-  intros md5 size_of ops f c now t. exact (rewrite_md5_run md5 size_of current eq_refl eq_refl ops f c now t).
-Qed.
+  check md5 current (run md5 size_of current (ops ++ [WriteAt f c m])) t = check md5 current s t.
+Proof. intros md5 size_of. exact (rewrite_md5_run md5 size_of current eq_refl). Qed.
 Print Assumptions C04_rewrite_same_content_md5.
 
 (* ---- non-vacuity ---- *)
@@ -88,9 +96,9 @@ Definition e_ops : list op := [Write 0 0; Write 1 1; Write 2 2; SetDef 7 e01; Se
 
 (* the hypotheses of C04_uptodate_complete are satisfiable by a task with file deps, a target and items *)
 Example C04_complete_nonvacuous :
-  let ops := (e_ops ++ [SaveOk 7; Touch 0; Write 1 3])%N in
+  let ops := (e_ops ++ [SaveOk 7; TouchAt 0 (-3); WriteAt 1 3 100; TouchAt 0 40])%N in
   let s := run (fun c => c) (fun _ => 4) current ops in
-  fs_fresh ops = true /\ file_dep (s_defs s 7%N) <> [] /\ (exists g, s_last_ok s 7%N = Some g) /\
+  hist_ok (fun c => c) (fun _ => 4) current ops = true /\ file_dep (s_defs s 7%N) <> [] /\ (exists g, s_last_ok s 7%N = Some g) /\
   g_status (check (fun c => c) current s 7%N) = UpToDate.
 Proof. vm_compute. split; [reflexivity|]. split; [discriminate|]. split; [eexists; reflexivity | reflexivity]. Qed.
 
@@ -112,9 +120,25 @@ Qed.
 Example C04_touch_nonvacuous :
   let ops := (e_ops ++ [SaveOk 7])%N in
   s_ck (run (fun c => c) (fun _ => 4) current ops) = MD5 /\
+  hist_ok (fun c => c) (fun _ => 4) current (ops ++ [TouchAt 0 (-9)]%N) = true /\
+  g_status (check (fun c => c) current (run (fun c => c) (fun _ => 4) current (ops ++ [TouchAt 0 (-9)]%N)) 7%N) = UpToDate /\
   g_status (check (fun c => c) current (run (fun c => c) (fun _ => 4) current (ops ++ [Touch 0]%N)) 7%N) = UpToDate /\
   (* under the timestamp checker the same touch does cause a rebuild *)
-  g_status (check (fun c => c) current (run (fun c => c) (fun _ => 4) current (SetChecker TS :: ops ++ [Touch 0]%N)) 7%N) = Run.
+  g_status (check (fun c => c) current (run (fun c => c) (fun _ => 4) current (SetChecker TS :: ops ++ [TouchAt 0 (-9)]%N)) 7%N) = Run.
+Proof. vm_compute. repeat split. Qed.
+
+(* a file dep replaced by OTHER content carrying an OLDER mtime than the recorded one (cp -p, tar, rsync -t):
+   the run after the replacement executes and records the new state; the runs after that are up-to-date *)
+Example C04_older_mtime_replacement :
+  let ops := [WriteAt 0 1 200; SetDef 7 {| file_dep := [0%N]; targets := []; uptodate := []; act_values := []; act_result := None |}]%N in
+  let s1 := run_all (fun c => c) (fun _ => 4) current (run (fun c => c) (fun _ => 4) current ops) [7%N] in
+  let s2 := step (fun c => c) (fun _ => 4) current s1 (WriteAt 0%N 0 100) in
+  let s3 := run_all (fun c => c) (fun _ => 4) current s2 [7%N] in
+  hist_ok (fun c => c) (fun _ => 4) current (ops ++ [Check 7; SaveOk 7; WriteAt 0 0 100])%N = true /\
+  executes (fun c => c) current s1 7%N false = false /\
+  executes (fun c => c) current s2 7%N false = true /\
+  executes (fun c => c) current s3 7%N false = false /\
+  r_saved (getrec (s_db s3) 7%N) 0%N = Some (MD5state 100 4 0).
 Proof. vm_compute. repeat split. Qed.
 
 (* ---- FS-fresh is needed for completeness as well (md5): after a write that kept the mtime, the
@@ -122,7 +146,7 @@ Proof. vm_compute. repeat split. Qed.
    the file is unmodified -- by the md5 rule -- w.r.t. what that successful run saw ---- *)
 Theorem C04_md5_same_mtime_refuted :
   exists (ops : list op) (t : name) (f : file),
-    fs_fresh ops = false /\
+    hist_ok (fun c => c) (fun _ => 4) current ops = false /\
     let s := run (fun c => c) (fun _ => 4) current ops in
     g_status (check (fun c => c) current s t) = Run /\ file_dep (s_defs s t) = [f] /\
     uptodate (s_defs s t) = [] /\ targets (s_defs s t) = [] /\
@@ -131,7 +155,7 @@ Theorem C04_md5_same_mtime_refuted :
 Proof.
   exists [Write 0 0; SetDef 7 {| file_dep := [0%N]; targets := []; uptodate := []; act_values := []; act_result := None |};
           SaveOk 7; WriteSameMtime 0 1; SaveOk 7; Touch 0]%N, 7%N, 0%N.
-  split; [reflexivity|]. cbv zeta. split; [vm_compute; reflexivity|]. split; [reflexivity|]. split; [reflexivity|]. split; [reflexivity|].
+  split; [vm_compute; reflexivity|]. cbv zeta. split; [vm_compute; reflexivity|]. split; [reflexivity|]. split; [reflexivity|]. split; [reflexivity|].
   eexists. eexists. eexists. split; [vm_compute; reflexivity|]. split; [reflexivity|]. split; [reflexivity|].
   split; [vm_compute; reflexivity|]. split; [vm_compute; reflexivity|]. vm_compute. right. split; reflexivity.
 Qed.
